@@ -23,7 +23,7 @@ if [ $APPLY -eq 0 ]; then
   cp "$S/demo_test.go" "$W/test/zz_seed_demo_test.go"
   (cd "$W" && timeout 900 go test -mod=mod -vet=off -count=1 $RACE -timeout 10m -run "^${T}\$" ./test > "$S/patched_demo.log" 2>&1); DEMO=$?
   rm -f "$W/test/zz_seed_demo_test.go"
-  /verif/bin/iplcheck -repo "$W" -property all -evidence-dir "$W/.ev" -known /verif/known-findings.json -controls '' > "$S/checker.log" 2>&1
+  ${IPLCHECK:-/verif/bin/iplcheck} -repo "$W" -property all -evidence-dir "$W/.ev" -known /verif/known-findings.json -controls '' > "$S/checker.log" 2>&1
   CHK=$?
 else
   CHK=-1
